@@ -10,10 +10,11 @@ for d in /verif/seeded/C*/; do
   [ -n "${1:-}" ] && [ "$1" != "$id" ] && continue
   git -C /repo status --short | grep -q . && { echo "/repo not clean"; exit 2; }
   git -C /repo apply $d/patch.diff || { echo "| $id | - | patch does not apply | | |" >> $out; continue; }
-  log=$(timeout 2400 python3 tools/check.py $id --tier quick 2>&1); rc=$?
+  prop=${id:0:3}
+  log=$(timeout 2400 python3 tools/check.py $prop --tier quick 2>&1); rc=$?
   v=$(echo "$log" | grep -m1 VIOLATION | sed 's/|/ /g')
-  s=$(echo "$log" | grep -m1 "^\[$id\]" | sed 's/|/ /g')
-  echo "| $id | check.py $id --tier quick | $rc | $v | $s |" >> $out
+  s=$(echo "$log" | grep -m1 "^\[$prop\]" | sed 's/|/ /g')
+  echo "| $id | check.py $prop --tier quick | $rc | $v | $s |" >> $out
   git -C /repo checkout -- .
 done
 git -C /repo status --short
